@@ -276,6 +276,12 @@ func (in *c05wInst) Step(ev int) *vh.HViol {
 	case e == "pick":
 		i, st := servedIndex(in.k, "10.0.0.1")
 		in.out = fmt.Sprint(i, st)
+	case e == "pick-x25":
+		// a long stretch of traffic in one step: effects that grow with the number of requests
+		// served in a state (e.g. while a backend is out) become reachable at small depth
+		for q := 0; q < 25; q++ {
+			servedIndex(in.k, "10.0.0.1")
+		}
 	case strings.HasPrefix(e, "eject:"):
 		name := e[6:]
 		if b := in.k.backendByName(name); b != nil && !in.ej[name] {
@@ -358,7 +364,7 @@ func (in *c05wInst) Probe() *vh.HViol {
 }
 
 func c05wSpec(p c05wParams, depth int) vh.HSpec {
-	ev := []string{"pick"}
+	ev := []string{"pick", "pick-x25"}
 	for i := range p.Weights {
 		ev = append(ev, fmt.Sprintf("eject:b%d", i), fmt.Sprintf("recover:b%d", i))
 	}
